@@ -98,3 +98,20 @@ Fixpoint parse_blocks_fuel (fuel : nat) (sync bs : bytes) {struct fuel} : option
 
 Definition parse_blocks (sync bs : bytes) : option (list (Z * bytes)) :=
   parse_blocks_fuel (length bs) sync bs.
+
+(* ---- any write granularity ----
+   How many Write calls carry a block (or the header) is an implementation
+   choice the properties do not speak about.  [rechunk lens bs] cuts a byte
+   stream at the given Write-call lengths; [fault_of_chunks] is the failing
+   writer of C16 over any such list of Write calls. *)
+Fixpoint rechunk (lens : list nat) (bs : bytes) {struct lens} : list bytes :=
+  match lens with
+  | [] => []
+  | n :: r => firstn n bs :: rechunk r (skipn n bs)
+  end.
+
+Definition fault_of_chunks (chunks : list bytes) (k partial : nat) : bytes * bool :=
+  match feed chunks k partial with
+  | (acc, None) => (acc, true)
+  | (acc, Some _) => (acc, false)
+  end.
